@@ -12,7 +12,8 @@ Emitted into coq/gen/SlicersGen.v:
   * shape facts (fail closed when the code no longer has the expected form): BaseSlicer.slice emits the opentype
     strings then the body; pushSlicer = sendOpen + registerRefID under trackReferences; popSlicer = sendClose(openID);
     ScopedSlicer's table is keyed by id(obj) and answers with a ReferenceSlicer; Banana.setObject/getObject walk the
-    receive stack from the top; the object counter is taken and incremented at OPEN; list/set bodies iterate the
+    receive stack from the top; the object counter is taken and incremented at OPEN; PING / PONG are clauses of handleData's
+    per-token chain (reached after the look-ahead window has been put back) that only answer / continue; list/set bodies iterate the
     object; dict body = key then value with OrderedDictSlicer's sort-with-fallback; Copyable = 'copyable', type name,
     then attribute name / value pairs; set-vocab switches the table to {} at start and to the new one at finish.
 Everything that is not recognised raises Untranslatable.
@@ -48,7 +49,7 @@ Accepted alternative forms (each equivalent to the reference form for ALL inputs
 import ast, importlib, sys
 from translate import pylite as P
 
-PROPERTIES = ["C01"]
+PROPERTIES = ["C01", "C04"]
 OUTPUTS = ["SlicersGen.v"]
 
 
@@ -638,6 +639,40 @@ def generate():
             "Banana.handleData (CLOSE while discarding)")
     require(hd, ["rejected = False\n", "if self.discardCount:\n            rejected = True"], "Banana.handleData (discard test)")
     out.append("Definition open_counts_when_discarded : bool := true.  (* objectCounter += 1 at every OPEN, before rejection / discard *)")
+    # keepalive tokens: PING / PONG are clauses of the per-token elif chain that starts at the second `if typebyte == OPEN`,
+    # i.e. they are reached only AFTER the unused rest of the 65-byte look-ahead window has been put back into the receive
+    # buffer; the PING clause answers and goes on to the next token, the PONG clause just goes on: neither touches the
+    # receive stack, inOpen, discardCount or the buffer -- whatever state the receiver is in (Obj.step / ObjDefer.dstep:
+    # TPing / TPong leave the state unchanged, in the index phase too)
+    loops = [x for x in ast.walk(hdn) if isinstance(x, ast.While) and ast.unparse(x.test) == "len(self.buffer)"]
+    if len(loops) != 1:
+        raise P.Untranslatable("handleData: expected one `while len(self.buffer)` token loop")
+    top = loops[0].body
+    putback = [i for i, x in enumerate(top) if norm(ast.unparse(x)) == norm("self.buffer.appendleft(first65[pos + 1:])")]
+    chain_at = [i for i, x in enumerate(top) if x is second]
+    if len(putback) != 1 or len(chain_at) != 1 or putback[0] > chain_at[0]:
+        raise P.Untranslatable("handleData: the rest of the look-ahead window is no longer put back (once, at the top level of the token "
+                               "loop) before the per-token clauses")
+    ka_tests = [x for x in ast.walk(hdn) if isinstance(x, ast.Compare) and any(isinstance(n_, ast.Name) and n_.id in ("PING", "PONG") for n_ in ast.walk(x))]
+    clauses, node = {}, second
+    while True:
+        clauses[ast.unparse(node.test)] = node
+        if len(node.orelse) == 1 and isinstance(node.orelse[0], ast.If):
+            node = node.orelse[0]
+        else:
+            break
+    for nm, want in (("PING", ["self.sendPONG(header)", "continue"]), ("PONG", ["continue"])):
+        cl = clauses.get("typebyte == %s" % nm)
+        if cl is None or [ast.unparse(x) for x in cl.body] != want:
+            raise P.Untranslatable("handleData: the %s clause of the per-token chain is no longer exactly %r" % (nm, want))
+    allowed = {id(clauses["typebyte == PING"].test), id(clauses["typebyte == PONG"].test)}
+    for x in ka_tests:
+        if id(x) in allowed:
+            continue
+        if ast.unparse(x) == "typebyte not in (PING, PONG, ABORT, CLOSE, ERROR)":
+            continue                # the always-legal test: only decides whether checkToken is asked
+        raise P.Untranslatable("handleData: keepalive tokens are tested for outside their two clauses: " + ast.unparse(x))
+    out.append("Definition keepalive_tokens_ignored : bool := true.  (* PING: sendPONG(header); continue.  PONG: continue.  Both after the look-ahead put-back *)")
     ho = ast.unparse(P.find_def(bm, "Banana.handleOpen"))
     require(ho, ["self.opentype.append(indexToken)", "child = top.doOpen(opentype)", "child.openCount = openCount",
                  "self.receiveStack.append(child)", "child.start(objectCount)"], "Banana.handleOpen")
